@@ -42,6 +42,8 @@ structure ClassOpts where
   accepts : List String := []
   /-- `StructureReference`: built from a dict or Structure on assignment -/
   inline : Bool := false
+  /-- names of fields whose Field object is immutable (`ImmutableArray`, `ImmutableMap`, …) -/
+  immFields : List String := []
 deriving Repr, Inhabited
 
 inductive FieldDecl where
